@@ -207,7 +207,7 @@ def parse_kani_log(text):
 class Harness:
     def __init__(self, name, module, overlay="e1", desc="", bounds="", functions=(), covers=(),
                  flags=(), timeout=600, mem_gb=16, tier="quick", props=(), assumptions=(),
-                 replay="playback", known=None, crate="lib"):
+                 replay="playback", known=None, crate="lib", thorough_props=()):
         self.name = name            # function name of the #[kani::proof]
         self.module = module        # rust module path that contains `verif_kani` (e.g. "msgpack")
         self.overlay = overlay
@@ -220,6 +220,7 @@ class Harness:
         self.mem_gb = mem_gb
         self.tier = tier
         self.props = list(props)
+        self.thorough_props = list(thorough_props)  # properties this query serves in the thorough tier only
         self.assumptions = list(assumptions)
         self.replay = replay
         self.known = known
